@@ -362,6 +362,9 @@ func (g *Gen) destRaw(n *Node, t reflect.Type, populated bool) reflect.Value {
 				x = Pick(r, []float64{math.NaN(), math.NaN(), math.Inf(1), math.Inf(-1), 1e300, -1e300, 5e-324})
 			}
 			v.SetFloat(x)
+			if populated && v.Float() == 0 { // (5e-324 rounds to zero in a float32)
+				v.SetFloat(1)
+			}
 		}
 	case KBool:
 		if !zero {
